@@ -129,6 +129,44 @@ def run(chk):
                               "class": "prefix/seed%d" % sd, "expect": {"claim": "program XOR non-empty located errors; no crash; terminates; token positions exist"}})
                 npre += 1
     chk.extra["character_prefixes"] = npre
+    # the repository's own programs, damaged the way an editor session damages them: a span deleted, a line
+    # duplicated or moved, two words swapped, a word of another place or of the vocabulary inserted, cut anywhere
+    vocab = ["func", "on", "end", "if", "else", "while", "for", "range", "return", "break", ":=", "=", ":", "...", "[", "]", "{", "}", "(", ")",
+             ".", ".(", "[]", "{}", "num", "string", "bool", "any", "\"", "//", "+", "-", "*", "/", "%", "==", "!", "and", "or", "1", "x", "\n"]
+    texts = []
+    for f in files:
+        try:
+            t = open(f, encoding="utf-8").read()
+        except Exception:
+            continue
+        if 0 < len(t) < 4000:
+            texts.append((os.path.relpath(f, common.REPO), t))
+    rnd.shuffle(texts)
+    texts = texts[: 60 if chk.tier == "quick" else 400]
+    ndam = 0
+    for rel, t in texts:
+        for k in range(40 if chk.tier == "quick" else 150):
+            kind = rnd.randrange(7)
+            lines = t.split("\n")
+            words = t.split(" ")
+            if kind == 0:
+                a = rnd.randrange(len(t)); m = t[:a] + t[a + 1 + rnd.randrange(12):]
+            elif kind == 1:
+                a = rnd.randrange(len(lines)); m = "\n".join(lines[:a] + [lines[a]] + lines[a:])
+            elif kind == 2:
+                a, b = rnd.randrange(len(lines)), rnd.randrange(len(lines)); ls = list(lines); ls[a], ls[b] = ls[b], ls[a]; m = "\n".join(ls)
+            elif kind == 3 and len(words) > 1:
+                a, b = rnd.randrange(len(words)), rnd.randrange(len(words)); ws = list(words); ws[a], ws[b] = ws[b], ws[a]; m = " ".join(ws)
+            elif kind == 4:
+                a = rnd.randrange(len(t) + 1); m = t[:a] + rnd.choice(vocab) + t[a:]
+            elif kind == 5:
+                a = rnd.randrange(len(t) + 1); m = t[:a] + " " + rnd.choice(vocab) + " " + t[a:]
+            else:
+                m = t[:rnd.randrange(len(t) + 1)]
+            cases.append({"id": "dam-%d" % ndam, "stage": "parsetotal", "src": [m], "class": "damaged/" + rel,
+                          "expect": {"claim": "program XOR non-empty located errors; no crash; terminates; token positions exist"}})
+            ndam += 1
+    chk.extra["damaged_repository_programs"] = ndam
     for n, b in enumerate(BINARY):
         cases.append({"id": "bin-%d" % n, "stage": "parsetotal", "src": [{"bytes": b}], "class": "binary/%d" % n,
                       "expect": {"claim": "program XOR non-empty located errors; no crash; terminates"}})
@@ -147,7 +185,7 @@ def run(chk):
                 "digit, dot, quote, backslash, operators, a non-letter symbol; for every input, spec or not: offsets increase, lie inside the input, EOF at its end, line/column of every token recomputed from its offset) plus %d seed-chosen strings of length %d and the texts of "
                 "repository .evy files, token kinds/offsets/lines/columns from EvyLexer.tla; parser: every deletion, transposition and "
                 "prefix, and (sampled in quick, all in thorough) insertions/substitutions from a 40-token vocabulary at every piece of three "
-                "seed programs, pairs of edits, every character-level prefix of the seed programs behind a comment of each length 0..15, every sequence of up to 3 header tokens after `func f`, `func f:num`, `on key`, `on down` with bodies that use the "
+                "seed programs, pairs of edits, every character-level prefix of the seed programs behind a comment of each length 0..15, seed-chosen damage (deleted spans, duplicated / swapped lines, swapped words, inserted vocabulary, cuts) to repository programs, every sequence of up to 3 header tokens after `func f`, `func f:num`, `on key`, `on down` with bodies that use the "
                 "parameter in every expression and statement form, and %d binary / truncated / deeply nested inputs; non-trivial = distinct input"
                 % (maxlen, nsample, slen, len(BINARY)))
     chk.exhaustive = False
